@@ -12,3 +12,45 @@ Theorem case_in_F01_exact c : case_in_F01 c = true ->
   forall row, In row (run (mk_world (e_world c)) (mk_domains (e_doms c)) (e_query c)) <->
               answer (mk_world (e_world c)) (mk_domains (e_doms c)) (e_query c) row.
 Proof. apply in_F01_exact. Qed.
+
+(* ---------- C02: the conjunctive / else-if fragment as a decidable flag ---------- *)
+From Coq Require Import Permutation.
+From Krrood Require Import Eql.CountProofs Eql.BagProofs.
+
+Fixpoint nodup_valb (l : list val) : bool :=
+  match l with [] => true | v :: l' => negb (existsb (val_eqb v) l') && nodup_valb l' end.
+Lemma nodup_valb_spec l : nodup_valb l = true -> NoDup l.
+Proof.
+  induction l as [|v l IH]; simpl; intros H; constructor; apply andb_prop in H as [H1 H2]; auto.
+  intros Hin. apply negb_true_iff in H1. assert (E : existsb (val_eqb v) l = true).
+  { apply existsb_exists. exists v. split; auto. now apply val_eqb_eq. }
+  congruence.
+Qed.
+
+Lemma mk_domains_nodup l : forallb (fun p : var * list val => nodup_valb (snd p)) l = true ->
+  forall x, NoDup (mk_domains l x).
+Proof.
+  induction l as [|[y vs] l IH]; simpl; intros H x; [constructor|].
+  apply andb_prop in H as [H1 H2]. destruct (Nat.eqb x y); [now apply nodup_valb_spec|auto].
+Qed.
+
+Definition case_in_F02 (c : ecase) : bool :=
+  forallb (fun p : var * list val => nodup_valb (snd p)) (e_doms c) &&
+  match q_cond (e_query c) with
+  | Some cd => nnf cd && nsubset (flat_map opnd_vars (q_sels (e_query c))) (cond_vars cd)
+  | None => false
+  end.
+
+(* inside the flag the model's rows are a permutation of the Spec's enumeration of satisfying assignments *)
+Theorem case_in_F02_perm c : case_in_F02 c = true ->
+  Permutation (run (mk_world (e_world c)) (mk_domains (e_doms c)) (e_query c))
+              (answers_exec (mk_world (e_world c)) (mk_domains (e_doms c)) (e_query c)).
+Proof.
+  unfold case_in_F02. intros H. apply andb_prop in H as [Hd H].
+  destruct (q_cond (e_query c)) as [cd|] eqn:Ec; [|discriminate]. apply andb_prop in H as [Hn Hr].
+  apply (run_perm _ _ (mk_domains_nodup _ Hd) (e_query c) cd Ec Hn).
+  intros x Hx. eapply nsubset_In; eauto.
+Qed.
+
+Definition rows_and_frags (c : ecase) : sx :=
+  SL [model_rows c; spec_rows c; SB (case_in_F01 c); SB (case_in_F02 c)].
